@@ -113,6 +113,10 @@ func valOfMap(rv reflect.Value, lv int) *val.Val {
 		assertTypeEquals(kVal, tmpKVal)
 		tmpVVal := valOf(rv.MapIndex(keys[i]), lv+1)
 		assertTypeEquals(vVal, tmpVVal)
+		if _, dup := m.Get(tmpKVal); dup {
+			// e.g. one instant given in two zones: which entry survived depended on Go's map iteration order
+			panic(fmt.Errorf("val: map keys collide after conversion: %s", tmpKVal))
+		}
 		m.Put(tmpKVal, tmpVVal)
 	}
 	return m.Vl()
